@@ -220,7 +220,7 @@ def errd_read(ctx, P, fns):
             ctx.check(r, harmless, k, f.where(c), "when %s fails the function only logs and carries on, and the unread value is used before any later read can fail" % cal)
 
 
-def errd_null(ctx, P, fns, floor=8, what="loader", skip=()):
+def errd_null(ctx, P, fns, floor=8, what="loader", skip=(), keep_check=True):
     r = ctx.rule("ERRD.null", "the result of a %s that can return NULL is tested before it is dereferenced, and before success is reported when it is kept in an object" % what, floor=floor)
     # callees that have a `return NULL` path
     nullable = set()
@@ -329,6 +329,23 @@ def errd_null(ctx, P, fns, floor=8, what="loader", skip=()):
                                         bad = c2
                     if bad is not None:
                         break
+            if bad is None and keep_check:
+                # put into a container (hash table, list) without a test: the NULL is found again by code that assumes an object
+                for c2 in f.calls():
+                    if c2 == c or c2 in set(f.walk(start)):
+                        continue
+                    cal2 = f.nodes[c2].get("callee")
+                    if cal2 not in ("hash_table_enter", "hash_table_replace", "glist_add_ptr", "hash_table_enter_bkey", "blkarray_list_append"):
+                        continue
+                    for ai, a in enumerate(f.args(c2)):
+                        if ai > 0 and f.canon(a, subst=False) in lhs_paths and (cal2 != "hash_table_enter" or ai == 2):
+                            redefs = set(st["node"] for st in paths.stores(f) if st["path"] in lhs_paths and st["op"] == "=" and st["node"] != start and st["node"] not in set(f.ancestors(c)))
+                            edges = set(paths.guard_edges(f, nonnull))
+                            if f.cfg.path_exists(paths.pos_of(f, start), lambda e, c2=c2: e == c2, is_barrier=lambda e: e in redefs, removed_edges=edges):
+                                bad = c2
+                if bad is not None:
+                    ctx.bad(r, key(f, "%s#%d" % (cal, n)), f.where(c), "%s can return NULL; the result is put into a container by %s at line %d without a test" % (cal, f.nodes[bad].get("callee"), f.line(bad)))
+                    continue
             if bad is None and any("->" in lp for lp in lhs_paths):
                 # kept in the object: a success return must not be reachable without the test
                 succ = set()
@@ -878,7 +895,18 @@ def cursor_rule(ctx, P, fns):
                 if rr[2] == endp and rr[0] in ("(%s + %s)" % (cur, amount), "(%s + %s)" % (amount, cur)):
                     return True
                 # amount <= end - cursor
-                return rr[0] == amount and rr[2] == "(%s - %s)" % (endp, cur)
+                if rr[0] == amount and rr[2] == "(%s - %s)" % (endp, cur):
+                    return True
+                # total of a loop of advances tested at once: (count * ... * amount) <= end - cursor, computed in a
+                # 64-bit type (a product of 32-bit counts from the file can wrap and pass the test)
+                if rr[2] == "(%s - %s)" % (endp, cur):
+                    j = fn.strip(c)
+                    for side in fn.ch(j):
+                        sd = fn.strip(side, casts=False)
+                        if fn.k(fn.strip(side)) == "Bin" and fn.nodes[fn.strip(side)]["op"] == "*" and amount in re.findall(r"[\w>.\-]+", fn.canon(side, subst=False)):
+                            t = fn.nodes[fn.strip(side)].get("ct", fn.nodes[fn.strip(side)].get("t", ""))
+                            return t.replace("const ", "").strip() in ("long", "unsigned long", "size_t", "long long", "unsigned long long", "ptrdiff_t", "int64", "uint64")
+                return False
 
             def after(fn, c, pol, cur=cur, endp=endp):
                 rr = paths.rel(fn, c, pol, subst=False)
@@ -944,7 +972,7 @@ def _error_exits(f):
     for rt in f.find("Return"):
         if f.ch(rt):
             v = f.constval(f.ch(rt)[0])
-            if (v is not None and v < 0) or paths._is_zero(f, f.ch(rt)[0]):
+            if (v is not None and v < 0) or (paths._is_zero(f, f.ch(rt)[0]) and "*" in f.d.get("ret", "")):
                 out.add(rt)
     return out
 
@@ -976,13 +1004,13 @@ def unwind_rule(ctx, P, fns, floor=10, only_readers=True, extra_allocs=(), extra
                     d = None
                 if d is not None:
                     owned.setdefault(d, []).append(p)
-            elif cal in extra_owned:
+            elif cal in extra_owned or (extra_owned and "*ctor" in extra_owned and cal and re.search(r"_(init|new|init_search|read|read_s3file|readfile|parse_string|parse_file|build_fsg|retain)$", cal) and any("*" in g.d.get("ret", "") for g in P.fn_index.get(cal, []))):
                 p = f.up(c)
                 while p is not None and f.k(p) in ("Paren", "ICast", "Cast"):
                     p = f.parent[p]
                 if p is not None and f.k(p) in ("Assign", "Var"):
                     d = paths.local_of(f, f.ch(p)[0]) if f.k(p) == "Assign" else f.nodes[p].get("decl")
-                    if d is not None:
+                    if d is not None and not cal.endswith("_retain"):
                         owned.setdefault(d, [])
                         objects.add(d)
         if not owned:
@@ -1035,6 +1063,19 @@ def unwind_rule(ctx, P, fns, floor=10, only_readers=True, extra_allocs=(), extra
                 for n, fr in enumerate(frees):
                     bad_ = f.cfg.path_exists(paths.pos_of(f, st["node"]), lambda e, fr=fr: e == fr) and not paths.must_pass(f, fr, lambda e: e in resets)
                     ctx.check(r, not bad_, key(f, "%s:handed-out#%d" % (name, n)), f.where(fr), "`%s` was handed to the caller through `%s` and is released here without resetting it: the caller releases it again" % (name, outp))
+            # kept in an object field and released afterwards without the field being reset: the object is left
+            # with a dangling pointer
+            for st in paths.stores(f):
+                if st["rhs"] is None or st["kind"] != "Member" or st["op"] != "=":
+                    continue
+                rv = f.strip(st["rhs"])
+                if paths.local_of(f, st["rhs"]) != d and not (f.k(rv) == "Assign" and paths.local_of(f, f.ch(rv)[0]) == d):
+                    continue
+                fldp = st["path"]
+                resets = set(x["node"] for x in paths.stores(f) if x["path"] == fldp and x["node"] != st["node"])
+                for n, fr in enumerate(frees):
+                    if f.cfg.path_exists(paths.pos_of(f, st["node"]), lambda e, fr=fr: e == fr, is_barrier=lambda e: e in resets) and not paths.must_pass(f, fr, lambda e: e in resets):
+                        ctx.bad(r, key(f, "%s:dangling:%s#%d" % (name, fldp, n)), f.where(fr), "`%s` was stored in `%s` and is released here while that field still points to it: the next user of the object reads or releases freed memory" % (name, fldp))
             if escapes or d in objects:
                 continue
             # temporary: every exit after an allocation passes a free (null-test edges of the local removed)
